@@ -139,9 +139,38 @@ theorem tryDown_last (s : Array Nat) (i q : Nat) (hq : s[q]? = some 125)
     · rw [ih (pos + 1) (by omega) (by omega)]
       rfl
 
+/-- no `${` begins inside `pre`, nor with its last character and the `$` that follows it -/
+def NoStart (pre : Str) : Prop := ∀ i, pre[i]? = some 36 → (pre ++ [36])[i + 1]? ≠ some 123
+
+theorem noStart_of_no_dollar (pre : Str) (h : 36 ∉ pre) : NoStart pre := by
+  intro i hi
+  exact absurd (List.mem_of_getElem? hi) h
+
+theorem noStart_nil : NoStart [] := noStart_of_no_dollar [] (by simp)
+
+/-- text without `$`, then a run of `$`: still no `${` begins there -/
+theorem noStart_run (pre0 : Str) (k : Nat) (h : 36 ∉ pre0) : NoStart (pre0 ++ List.replicate k 36) := by
+  intro i hi hn
+  -- every character from `pre0.length` on (the run, and the `$` appended) is `$`
+  by_cases hlt : i + 1 < pre0.length
+  · have : (pre0 ++ List.replicate k 36)[i]? = pre0[i]? := List.getElem?_append_left (by omega)
+    rw [this] at hi
+    exact h (List.mem_of_getElem? hi)
+  · have hge : pre0.length ≤ i + 1 := by omega
+    have hall : ∀ x ∈ List.replicate k 36 ++ [36], x = 36 := by
+      intro x hx
+      rcases List.mem_append.mp hx with hx | hx
+      · exact (List.mem_replicate.mp hx).2
+      · simpa using hx
+    have hget : ((pre0 ++ List.replicate k 36) ++ [36])[i + 1]? = (List.replicate k 36 ++ [36])[i + 1 - pre0.length]? := by
+      rw [List.append_assoc, List.getElem?_append_right hge]
+    rw [hget] at hn
+    have := hall 123 (List.mem_of_getElem? hn)
+    omega
+
 /-- **the braces regex on a text**: the first match is at the first `$` that is followed by `{` … `}`; it ends after the
 last `}` of the text -/
-theorem search_braces (u : Uni) (pre b1 b2 : Str) (hpre : 36 ∉ pre) (hb2 : 125 ∉ b2) :
+theorem search_braces (u : Uni) (pre b1 b2 : Str) (hpre : NoStart pre) (hb2 : 125 ∉ b2) :
     search u (pre ++ 36 :: 123 :: (b1 ++ 125 :: b2)).toArray bracesReqShape =
       some (pre.length, { pos := pre.length + 2 + b1.length + 1,
                           caps := [(1, pre.length + 1, pre.length + 2 + b1.length + 1),
@@ -154,11 +183,22 @@ theorem search_braces (u : Uni) (pre b1 b2 : Str) (hpre : 36 ∉ pre) (hb2 : 125
   have hbefore : ∀ i, i < pre.length → matchAt u T.toArray bracesReqShape i = none := by
     intro i hi
     rw [matchAt_shape]
-    have : T.toArray[i]? ≠ some 36 := by
-      rw [hget, ← hT, List.getElem?_append_left hi]
-      intro h
-      exact hpre (List.mem_of_getElem? h)
-    rw [if_neg this]
+    by_cases h36 : T.toArray[i]? = some 36
+    · rw [if_pos h36]
+      have hp : pre[i]? = some 36 := by
+        rw [hget, ← hT, List.getElem?_append_left hi] at h36; exact h36
+      have hns := hpre i hp
+      have hnext : T.toArray[i + 1]? ≠ some 123 := by
+        rw [hget, ← hT]
+        by_cases hlt : i + 1 < pre.length
+        · rw [List.getElem?_append_left hlt]
+          rw [List.getElem?_append_left hlt] at hns
+          exact hns
+        · have : i + 1 = pre.length := by omega
+          rw [this]
+          simp
+      rw [if_neg hnext]
+    · rw [if_neg h36]
   -- the match at the `$`
   have hat : matchAt u T.toArray bracesReqShape pre.length =
       some { pos := pre.length + 2 + b1.length + 1,
@@ -233,5 +273,52 @@ theorem search_no_dollar (u : Uni) (t : Str) (ht : 36 ∉ t) : search u t.toArra
       simp only [searchFrom, hnone, ih]
       split <;> rfl
   exact hloop _ _
+
+/-! ## entities: an expression without `&` is not changed by the decoding step -/
+
+def entity2Shape : Re :=
+  .seq (.chr 38) (.seq (.grp 1 (.rep true 0 (some 1) (.chr 35))) (.seq (.grp 2 (.rep true 0 (some 1) (.chr 120)))
+    (.seq (.grp 3 (.alt (.rep true 1 (some 5) (.cls false [(.cat false .digit false)]))
+      (.rep true 1 (some 8) (.cls false [(.cat false .word false)])))) (.chr 59))))
+
+/-- the entity regex of the live module (regenerated) begins with `&` -/
+theorem tie_entity2 : Gen.ENTITY2_RE = entity2Shape := rfl
+
+/-- a regex that begins with a fixed character finds nothing in a text without that character -/
+theorem searchFrom_first_char_none (u : Uni) (t : Str) (ch : Nat) (R : Re) (ht : ch ∉ t) :
+    ∀ (fuel i : Nat), searchFrom u t.toArray (.seq (.chr ch) R) fuel i = none := by
+  have hnone : ∀ i, matchAt u t.toArray (.seq (.chr ch) R) i = none := by
+    intro i
+    unfold matchAt
+    rw [den_seq, den_chr_opt]
+    have : t.toArray[i]? ≠ some ch := by
+      rw [List.getElem?_toArray]
+      intro h
+      exact ht (List.mem_of_getElem? h)
+    simp only [this, if_false]
+  intro fuel
+  induction fuel with
+  | zero => intro i; rfl
+  | succ f ih =>
+    intro i
+    simp only [searchFrom, hnone, ih]
+    split <;> rfl
+
+theorem finditer_first_char_none (u : Uni) (t : Str) (ch : Nat) (R : Re) (ht : ch ∉ t) :
+    finditer u t.toArray (.seq (.chr ch) R) = [] := by
+  unfold finditer
+  cases hsz : t.toArray.size + 1 with
+  | zero => omega
+  | succ n =>
+    simp only [finditerAux, search, searchFrom_first_char_none u t ch R ht]
+
+/-- **no `&`, nothing to decode** -/
+theorem decodeEntities_no_amp (rx : Rx) (hrx : rx.entity2Re = entity2Shape) (s : Str) (hs : 38 ∉ s) :
+    decodeEntities rx s = some s := by
+  unfold decodeEntities
+  simp only [hrx]
+  unfold entity2Shape
+  rw [finditer_first_char_none Gen.uni s 38 _ hs]
+  simp [decodeEntities.go]
 
 end ChamVerif.C06Loop
